@@ -179,7 +179,7 @@ def run(tier):
     from cxxheaderparser.parser import CxxParser
 
     ck = Check("C13", tier)
-    plans = [("full", 2), ("core", 4)] if tier == "quick" else [("full", 3), ("core", 6)]
+    plans = [("full", 2), ("core", 4)] if tier == "quick" else [("full", 3), ("core", 5)]
     maxtok = max(b_ for _, b_ in plans)
     ck.encode(CxxParser._discard_contents, CxxParser._discard_ctor_initializer, CxxParser._consume_balanced_tokens, CxxParser._consume_attribute_specifier_seq,
               CxxParser._consume_gcc_attribute, CxxParser._consume_declspec, CxxParser._consume_static_assert, CxxParser._parse_fn_end, CxxParser._parse_method_end)
